@@ -47,7 +47,11 @@ def main():
                     open(os.path.join(BD, "benign_%s_%s.log" % (os.path.basename(pth), p)), "w").write(r.stdout)
         finally:
             sh("git -C %s checkout -- ." % WT)
-    json.dump(out, open(os.path.join(VERIF, "benign", "results.json"), "w"), indent=1)
+    rp = os.path.join(VERIF, "benign", "results.json")
+    allr = json.load(open(rp)) if os.path.exists(rp) else {}
+    for k, v in out.items():
+        allr.setdefault(k, {}).update(v)
+    json.dump(allr, open(rp, "w"), indent=1)
     return rc
 
 sys.exit(main())
